@@ -469,6 +469,55 @@ def problems (Γ : Env) : Stmt → List Problem
   | .ite _ s t => problems Γ s ++ problems Γ t
   | .ret => []
 
+/-! ### inputs of a kernel: what the Python wrapper hands over -/
+
+structure Inputs where
+  dims : List Nat                  -- value of every dimension symbol (`dims[0]` is the constant 0)
+  scalars : List (Nat × Int)       -- integer parameters (variable id, value)
+  arrs : List (Nat × List Int)     -- arrays (array id, contents; float arrays: only the length matters)
+deriving Repr, Inhabited
+
+def Inputs.dim (inp : Inputs) (d : Nat) : Nat := inp.dims.getD d 0
+
+def Inputs.arr (inp : Inputs) (a : Nat) : List Int :=
+  match inp.arrs.find? (fun p => p.1 == a) with
+  | some p => p.2
+  | none => []
+
+/-- the state in which the kernel starts: parameters set, locals unassigned, any oracle -/
+def Inputs.state (inp : Inputs) (orc : Nat → Nat → Int) : State :=
+  { dims := inp.dim
+    vars := fun x => (inp.scalars.find? (fun p => p.1 == x)).map (·.2)
+    arrs := inp.arr
+    orc := orc
+    tick := 0 }
+
+def Kind.memB (dims : Nat → Nat) (k : Kind) (v : Int) : Bool :=
+  (match k.lo with
+   | none => true
+   | some c => decide (c ≤ v)) &&
+  (match k.hi with
+   | none => true
+   | some (d, c) => decide (v < (dims d : Int) + c))
+
+def Inputs.arrOk (Γ : Env) (inp : Inputs) (a : Nat) : Bool :=
+  (match (Γ.arr a).size with
+   | none => true
+   | some (d, c) => decide ((inp.dim d : Int) + c ≤ ((inp.arr a).length : Int))) &&
+  (inp.arr a).all (fun v => (Γ.arr a).elem.memB inp.dim v)
+
+/-- the declared shapes and kinds hold of these inputs (decidable form of `Sat` on the initial state) -/
+def Inputs.satisfies (Γ : Env) (inp : Inputs) : Bool :=
+  inp.dim 0 == 0 &&
+  inp.scalars.all (fun p => (Γ.var p.1).memB inp.dim p.2) &&
+  (List.range Γ.arrs.length).all (fun a => inp.arrOk Γ a)
+
+/-- which declarations fail (diagnostics) -/
+def Inputs.violations (Γ : Env) (inp : Inputs) : List String :=
+  (if inp.dim 0 == 0 then [] else ["dim0"]) ++
+  (inp.scalars.filter (fun p => !(Γ.var p.1).memB inp.dim p.2)).map (fun p => s!"scalar:{p.1}") ++
+  ((List.range Γ.arrs.length).filter (fun a => !inp.arrOk Γ a)).map (fun a => s!"array:{a}")
+
 /-- A translated kernel: its body, the declared kinds (from the wrapper's allocations) and the
     names used in reports. -/
 structure Kernel where
